@@ -577,7 +577,7 @@ func c15R4(c *Ctx, rule string) {
 	if f := c.Field(rule, "FileSnapshotStore", "retain"); f != nil {
 		c.WhoMay(rule, "write FileSnapshotStore.retain", c.P.FieldWrites(f), map[string]string{"NewFileSnapshotStoreWithLogger": "validated (>= 1) at construction"})
 		if nf := c.P.Fn("NewFileSnapshotStoreWithLogger"); nf != nil {
-			rr := c.Run(&engine.Automaton{Fn: nf, Tracks: []engine.Track{engine.PredRel("tooFew", "p2", "1", engine.LT)}})
+			rr := c.Run(&engine.Automaton{Fn: nf, Tracks: []engine.Track{engine.PredRel("tooFew", "p2", "0", engine.LT|engine.EQ)}})
 			for _, w := range c.P.FieldWritesIn(nf, f) {
 				c.RequireAt(rr, rule, "NewFileSnapshotStore:retain-at-least-one", w.Instr, "retain >= 1", func(v engine.View) bool { return v.F("tooFew") })
 			}
